@@ -7,7 +7,7 @@ import tempfile
 from hypothesis import given, strategies as st
 
 from checks import regcommon
-from vlib import fileworld, refmodel, runner, world
+from vlib import fileworld, refmodel, runner, specs, world
 from vlib.specs import W, vdiff
 
 
@@ -92,7 +92,7 @@ def judge(ctx, case, spec, op, cfg, ft, d, before, k, nops, oplog, record):
         ref = refmodel.Ref(w, registry=True)
         for i in refmodel.entries(spec) - ood:
             nd = spec["nodes"][i]
-            if nd["k"] == "src" and not nd["deps"]:
+            if specs.src_kind(nd) in ("pure", "alias"):
                 continue
             exp = W(ref.raw(nd["deps"][0]["n"])) if nd["k"] == "src" else ref.raw(i)
             dd = vdiff(exp, w.stores[i].value)
@@ -110,9 +110,8 @@ def judge(ctx, case, spec, op, cfg, ft, d, before, k, nops, oplog, record):
         again = {f"n{e[2]}.pkl" for e in w.events if e[1] == "wr_start"} & written
         if again:
             ctx.violation(key_case, tag + f"files {sorted(again)} were completely written before the kill but the follow-up run wrote them again")
-    left = [n for n in os.listdir(d) if n.endswith(".STAGING")]
-    if left:
-        ctx.violation(key_case, tag + f"staging files survive a successful follow-up run: {left}")
+    # (a staging file of the killed writer that survives the follow-up run is not a violation: the statement only
+    # requires that it does not disturb later writes and reads, which the follow-up run has just shown)
 
 
 def run(ctx):
